@@ -269,8 +269,9 @@ func (w *FileWriter) Close() error {
 	}
 
 	// when we have previously written past the currentOffset because of seeks, we need to truncate the file again to
-	// avoid reading partial records
-	if w.largestOffset > w.currentOffset {
+	// avoid reading partial records. Block aligned writes always go past it: the last block is padded with zeros, which
+	// the readers of this package take for the end of the file, but which are not part of the published format.
+	if w.alignedBlockWrites || w.largestOffset > w.currentOffset {
 		err = w.file.Truncate(int64(w.currentOffset))
 		if err != nil {
 			return errors.Join(fmt.Errorf("failed to truncate file at '%s' failed with %w", w.file.Name(), err), w.file.Close())
